@@ -105,9 +105,10 @@ def gen_opt(rng, tier, allow_lbfgs=True):
         o = {"cls": cls, "lr": pick([0.003, 0.01]),
              "args": pick([{}, {"betas": [0.8, 0.9]}, {"amsgrad": True}, {"weight_decay": 0.01}])}
     elif cls == "AdamW":
-        o = {"cls": cls, "lr": 0.01, "args": pick([{}, {"weight_decay": 0.1}])}
+        # weight_decay=0.0 is a falsy value that differs from the class default (0.01)
+        o = {"cls": cls, "lr": 0.01, "args": pick([{}, {"weight_decay": 0.1}, {"weight_decay": 0.0}, {"weight_decay": 0.0, "amsgrad": False}])}
     elif cls == "RMSprop":
-        o = {"cls": cls, "lr": 0.003, "args": pick([{}, {"momentum": 0.5}, {"centered": True}])}
+        o = {"cls": cls, "lr": 0.003, "args": pick([{}, {"momentum": 0.5}, {"centered": True}, {"alpha": 0.0, "momentum": 0.0}])}
     elif cls == "Adagrad":
         o = {"cls": cls, "lr": 0.05, "args": pick([{}, {"lr_decay": 0.1}])}
     else:
@@ -124,7 +125,7 @@ def gen_opt(rng, tier, allow_lbfgs=True):
     return o
 
 
-def gen_spec(rng, tier, dup_names=None):
+def gen_spec(rng, tier, dup_names=None, late_weights=False):
     n_par = int(rng.choice([0, 1, 2], p=[0.35, 0.4, 0.25]))
     params = [{"name": "D", "init": [round(float(rng.uniform(0.5, 1.5)), 3)]},
               {"name": "k", "init": [round(float(rng.uniform(0.5, 1.5)), 3), round(float(rng.uniform(0.2, 0.8)), 3)]}][:n_par]
@@ -274,6 +275,9 @@ def gen_spec(rng, tier, dup_names=None):
            "opt": opt, "trainer": trainer, "steps": steps, "reseed": reseed}
     if len(conds) >= 2 and dup_names:
         out["dup_names"] = dup_names
+    if late_weights:
+        # the weights are assigned after the Solver object was constructed (the constructor values are decoys)
+        out["late_weights"] = [0.0 if c["weight"] == 0 else float(rng.choice([0.25, 0.5, 2.0, 3.0, 5.0])) for c in conds]
     return out
 
 
@@ -373,6 +377,9 @@ def gen_cases(seed, tier):
             if sp.get("dup_names"):
                 break
         single.append({"spec": sp})
+    rng5 = np.random.default_rng([seed, 7, 4])
+    for i in range(16 if tier == "quick" else 500):
+        single.append({"spec": gen_spec(rng5, tier, late_weights=True)})
     # long runs (more than 1000 optimizer steps) with a scheduler frequency that does not divide 1000
     rng4 = np.random.default_rng([seed, 7, 3])
     for i in range(2 if tier == "quick" else 24):
